@@ -26,6 +26,9 @@ def work(task):
     rng = Rng("%s/C01/%s/%s" % (task["seed"], b, ty))
     cases = []
     for (u, v) in cl.unit_pairs(ent):
+        if not cl.pair_ok(b, ent["units"][u]["scale"], ent["units"][v]["scale"]):
+            part.count("pair_outside_decimal_ratio_range")
+            continue
         for (x, cls) in cl.safe_amounts(rng, b, ent, u, task["n"]):
             cases.append({"ty": ty, "u": u, "v": v, "x": x, "cls": cls,
                           "reqs": [{"op": "convert", "ty": ty, "x": x, "u": u, "v": v}]})
